@@ -454,6 +454,9 @@ func (eng *Engine) runScans(prop string) []*Oblig {
 						if p+"."+n != tn && shortPkg(p)+"."+n != tn {
 							continue
 						}
+						if copyOfParam(al) {
+							continue // the addressable copy of a by-value parameter (value receivers): an existing object, not a new one
+						}
 						covered++
 						if !eng.fnAllowed(fn, allowed) {
 							bad = append(bad, eng.site(in))
@@ -890,4 +893,39 @@ func relNameBound(f *ssa.Function) string {
 		}
 	}
 	return n
+}
+
+// copyOfParam: a stack cell whose only stores write a whole parameter of the function into it (what go/ssa emits for a
+// by-value parameter whose address or fields are taken), and which is otherwise only read.
+func copyOfParam(al *ssa.Alloc) bool {
+	if al.Heap || al.Referrers() == nil {
+		return false
+	}
+	stores := 0
+	for _, r := range *al.Referrers() {
+		switch x := r.(type) {
+		case *ssa.Store:
+			if x.Addr != ssa.Value(al) {
+				return false
+			}
+			if _, isParam := x.Val.(*ssa.Parameter); !isParam {
+				return false
+			}
+			stores++
+		case *ssa.FieldAddr:
+			if x.Referrers() != nil {
+				for _, rr := range *x.Referrers() {
+					switch rr.(type) {
+					case *ssa.UnOp, *ssa.DebugRef:
+					default:
+						return false
+					}
+				}
+			}
+		case *ssa.UnOp, *ssa.DebugRef:
+		default:
+			return false
+		}
+	}
+	return stores == 1
 }
